@@ -86,8 +86,8 @@ func traceHash(res *Result) uint64 {
 }
 
 func workerMain(args []string) int {
-	if len(args) < 6 {
-		fmt.Fprintln(os.Stderr, "usage: worker <prop> <tier> <seed> <w> <W> <count> [det]")
+	if len(args) < 7 {
+		fmt.Fprintln(os.Stderr, "usage: worker <prop> <tier> <seed> <w> <W> <lo> <hi> [det]")
 		return 2
 	}
 	p := props[args[0]]
@@ -95,8 +95,10 @@ func workerMain(args []string) int {
 	seed, _ := strconv.ParseUint(args[2], 10, 64)
 	wi, _ := strconv.Atoi(args[3])
 	wn, _ := strconv.Atoi(args[4])
-	count, _ := strconv.Atoi(args[5])
-	det := len(args) > 6 && args[6] == "det"
+	lo, _ := strconv.Atoi(args[5])
+	count, _ := strconv.Atoi(args[6])
+	det := len(args) > 7 && args[7] == "det"
+	announce := os.Getenv("IKESIM_C18_MODE") == "race"
 	installSimRand()
 	out := &WorkerResult{Stats: map[string]int64{}, DetHash: map[int]uint64{}}
 	seen := map[uint64]bool{}
@@ -109,8 +111,11 @@ func workerMain(args []string) int {
 	defer wd.Stop()
 	enc := gob.NewEncoder(os.Stdout)
 
-	for idx := wi; idx < count; idx += wn {
+	for idx := lo + wi; idx < count; idx += wn {
 		curIdx = idx
+		if announce {
+			fmt.Fprintf(os.Stderr, "RUNNING index=%d\n", idx)
+		}
 		wd.Stop()
 		ci := curIdx
 		wd = time.AfterFunc(120*time.Second, func() {
@@ -207,9 +212,9 @@ func workerCount() int {
 	return n
 }
 
-func spawnWorker(self string, args []string) (*WorkerResult, string, error) {
+func spawnWorker(self string, env []string, args []string) (*WorkerResult, string, error) {
 	cmd := exec.Command(self, append([]string{"worker"}, args...)...)
-	cmd.Env = os.Environ()
+	cmd.Env = append(os.Environ(), env...)
 	stdout, err := cmd.StdoutPipe()
 	if err != nil {
 		return nil, "", err
@@ -304,17 +309,53 @@ func runMain(propID, tier string) int {
 		stderr string
 		err    error
 	}
-	results := make([]wr, wn)
-	done := make(chan int, wn)
-	for i := 0; i < wn; i++ {
-		go func(i int) {
-			r, se, err := spawnWorker(self, []string{propID, tier, strconv.FormatUint(seed, 10), strconv.Itoa(i), strconv.Itoa(wn), strconv.Itoa(count)})
-			results[i] = wr{r, se, err}
-			done <- i
-		}(i)
+	type phase struct {
+		bin    string
+		env    []string
+		lo, hi int
 	}
-	for i := 0; i < wn; i++ {
-		<-done
+	phases := []phase{{self, nil, 0, count}}
+	if propID == "C18" {
+		yb, rb := os.Getenv("IKESIM_YIELD_BIN"), os.Getenv("IKESIM_RACE_BIN")
+		if yb == "" || rb == "" {
+			fmt.Fprintln(os.Stderr, "C18 needs IKESIM_YIELD_BIN and IKESIM_RACE_BIN (run it through check.sh)")
+			return 2
+		}
+		ns := c18Serialized[tier]
+		if os.Getenv("VERIF_COUNT") != "" {
+			ns = count * 5 / 6
+		}
+		extraCoverage["yield_sites_inserted"] = os.Getenv("IKESIM_YIELD_SITES")
+		extraCoverage["serialized_scenarios"] = ns
+		extraCoverage["parallel_scenarios"] = count - ns
+		os.Setenv("IKESIM_C18_NSER", strconv.Itoa(ns))
+		phases = []phase{
+			{yb, []string{"IKESIM_C18_MODE=yield"}, 0, ns},
+			{rb, []string{"IKESIM_C18_MODE=race", "GORACE=halt_on_error=1 exitcode=66"}, ns, count},
+		}
+	}
+	var results []wr
+	for _, ph := range phases {
+		n := wn
+		if ph.hi-ph.lo < n {
+			n = ph.hi - ph.lo
+		}
+		if n <= 0 {
+			continue
+		}
+		pres := make([]wr, n)
+		done := make(chan int, n)
+		for i := 0; i < n; i++ {
+			go func(i int) {
+				r, se, err := spawnWorker(ph.bin, ph.env, []string{propID, tier, strconv.FormatUint(seed, 10), strconv.Itoa(i), strconv.Itoa(n), strconv.Itoa(ph.lo), strconv.Itoa(ph.hi)})
+				pres[i] = wr{r, se, err}
+				done <- i
+			}(i)
+		}
+		for i := 0; i < n; i++ {
+			<-done
+		}
+		results = append(results, pres...)
 	}
 	installSimRand()
 	agg := newStats()
@@ -331,7 +372,11 @@ func runMain(propID, tier string) int {
 				continue
 			}
 			if idx, msg, ok := parseFatal(r.stderr); ok {
-				viols = append(viols, WorkerViol{idx, Violation{Prop: propID, Oracle: "fatal", Key: normMsg(msg), Detail: msg}})
+				or := "fatal"
+				if strings.HasPrefix(msg, "DATA RACE") {
+					or = "data_race"
+				}
+				viols = append(viols, WorkerViol{idx, Violation{Prop: propID, Oracle: or, Key: normMsg(msg), Detail: msg + "\n" + raceExcerpt(r.stderr)}})
 				continue
 			}
 			fmt.Fprintf(os.Stderr, "worker %d failed: %v\n%s\n", i, r.err, tail(r.stderr, 4000))
@@ -363,7 +408,7 @@ func runMain(propID, tier string) int {
 	sort.Ints(detIdx)
 	detChecked := 0
 	for _, idx := range detIdx {
-		if detChecked >= 400 {
+		if detChecked >= 400 || propID == "C18" {
 			break
 		}
 		res := runScenario(genScenario(p, seed, idx, tier))
@@ -406,6 +451,21 @@ func runMain(propID, tier string) int {
 	return exit
 }
 
+func raceExcerpt(stderr string) string {
+	i := strings.Index(stderr, "WARNING: DATA RACE")
+	if i < 0 {
+		i = strings.Index(stderr, "fatal error: ")
+	}
+	if i < 0 {
+		return ""
+	}
+	e := stderr[i:]
+	if len(e) > 3000 {
+		e = e[:3000]
+	}
+	return e
+}
+
 func tail(s string, n int) string {
 	if len(s) > n {
 		return s[len(s)-n:]
@@ -438,10 +498,28 @@ func parseFatal(stderr string) (int, string, bool) {
 			return idx, l, true
 		}
 		if strings.Contains(l, "WARNING: DATA RACE") && idx >= 0 {
-			return idx, "DATA RACE", true
+			return idx, "DATA RACE " + raceSite(stderr), true
 		}
 	}
 	return 0, "", false
+}
+
+// raceSite extracts the first library function named in a race report.
+func raceSite(stderr string) string {
+	seen := false
+	for _, l := range strings.Split(stderr, "\n") {
+		if strings.Contains(l, "WARNING: DATA RACE") {
+			seen = true
+		}
+		l = strings.TrimSpace(l)
+		if seen && strings.HasPrefix(l, "github.com/free5gc/ike") {
+			if i := strings.Index(l, "("); i > 0 {
+				l = l[:i]
+			}
+			return "in " + strings.TrimPrefix(l, "github.com/free5gc/ike")
+		}
+	}
+	return ""
 }
 
 // ---------------------------------------------------------------------------
@@ -475,8 +553,22 @@ func reportViolation(p *PropDef, seed uint64, tier string, wv WorkerViol) string
 	dir := filepath.Join(verifDir(), "replays")
 	os.MkdirAll(dir, 0o755)
 	path := filepath.Join(dir, fmt.Sprintf("%s-%d-%d-%s-%04x.json", p.ID, seed, wv.Index, sanitize(wv.V.Oracle), fnvStr(0, wv.V.id())&0xffff))
+	if rp := os.Getenv("IKESIM_REPORT_PATH"); rp != "" {
+		path = rp
+	}
 	rf := &ReplayFile{Property: p.ID, Seed: seed, Tier: tier, Index: wv.Index, Oracle: wv.V.Oracle, Key: wv.V.Key, Detail: wv.V.Detail}
-	if wv.V.Oracle == "hang" || wv.V.Oracle == "fatal" {
+	if p.ID == "C18" && wv.V.Oracle != "hang" && wv.V.Oracle != "fatal" && wv.V.Oracle != "data_race" && !yieldBuild && os.Getenv("IKESIM_YIELD_BIN") != "" {
+		// serialized-mode findings reproduce only in the instrumented binary: confirm and shrink there
+		cmd := exec.Command(os.Getenv("IKESIM_YIELD_BIN"), "report", p.ID, tier, strconv.FormatUint(seed, 10), strconv.Itoa(wv.Index), wv.V.Oracle, wv.V.Key, path)
+		cmd.Env = append(os.Environ(), "IKESIM_C18_MODE=yield")
+		cmd.Stderr = os.Stderr
+		if err := cmd.Run(); err != nil {
+			fmt.Fprintln(os.Stderr, "harness error: report subprocess:", err)
+			os.Exit(2)
+		}
+		return path
+	}
+	if wv.V.Oracle == "hang" || wv.V.Oracle == "fatal" || wv.V.Oracle == "data_race" {
 		rf.Scenario = genScenario(p, seed, wv.Index, tier)
 		rf.OrigSteps = len(rf.Scenario.Steps)
 		writeJSON(path, rf)
@@ -496,6 +588,13 @@ func reportViolation(p *PropDef, seed uint64, tier string, wv WorkerViol) string
 		os.Exit(2)
 	}
 	min := shrink(sc, id)
+	if p.ID == "C18" {
+		budget := 400
+		min = shrinkC18(sc, id, func(c *Scenario) bool {
+			budget--
+			return budget > 0 && hasViolation(runScenario(c), id) != nil
+		})
+	}
 	res = runScenario(min)
 	if mv := hasViolation(res, id); mv != nil {
 		rf.Detail = mv.Detail
@@ -679,8 +778,15 @@ func replayMain(path string) int {
 	installSimRand()
 	id := rf.Oracle + "|" + rf.Key
 	fmt.Printf("ikesim replay: property=%s seed=%d index=%d oracle=%s steps=%d\n", rf.Property, rf.Seed, rf.Index, id, len(rf.Scenario.Steps))
-	if rf.Oracle == "fatal" || rf.Oracle == "hang" || props[rf.Property].Needs != nil {
-		return replaySpecial(&rf)
+	if props[rf.Property] != nil && props[rf.Property].Needs != nil && os.Getenv("IKESIM_C18_MODE") == "" {
+		return replaySpecial(&rf, path)
+	}
+	if rf.Oracle == "data_race" || rf.Oracle == "fatal" {
+		// runs in the -race binary: the detector (or the runtime) ends the process itself
+		fmt.Fprintf(os.Stderr, "RUNNING index=%d\n", rf.Index)
+		runScenario(rf.Scenario)
+		fmt.Println("replay: no race / fatal error on this run")
+		return 0
 	}
 	res := runScenario(rf.Scenario)
 	for _, t := range res.Trace {
